@@ -8,6 +8,7 @@ import Ptn.C02.OpsWF
 import Ptn.C02.TruncWF
 import Ptn.C02.BuildLabels
 import Ptn.C02.Progress
+import Ptn.C02.Value
 /-! Property theorems for C02.  Only property theorems and non-vacuity examples live here (part 1,
 the Node machine, is in `NodeProps.lean`, imported here); helper lemmas are in `Lemmas.lean`,
 `NodeSpec.lean`, `TTNLemmas.lean`, `ContractSpec.lean`, ….
@@ -551,5 +552,94 @@ example : ∃ t, TRunL TTN.empty
       admissibleB t1 (.split 3 ⟨none, [], [1], false⟩ ⟨none, [], [0, 2], true⟩ 3 4 2) = true ∧
       admissibleB t1 (.split 3 ⟨none, [], [1], false⟩ ⟨none, [], [0], true⟩ 3 4 2) = false) :=
   ⟨_, .cons ⟨rfl, rfl⟩ trivial rfl (.cons trivial ⟨_, rfl, rfl⟩ rfl (.nil _)), rfl, rfl, _, rfl, rfl, rfl⟩
+
+
+/-! ### Part 7 — value level (`Value.lean`): non-vacuity of `contract_nodes_value`, `split_nodes_value`,
+`replace_tensor_value`, `ops_preserve_value` -/
+
+section ValueDemo
+open Ptn.Ein Ptn.C03
+
+/-- the two-node network `1 — 2` of the example above with integer tensors: node 1 has the legs `10, 11, 12`
+(`11` the bond), node 2 the legs `20, 21` (`21` the bond); all dimensions 2 -/
+def vDemo : VNet Int where
+  ids := [1, 2]
+  legs := fun k => if k = 1 then [10, 11, 12] else if k = 2 then [20, 21] else []
+  tens := fun k σ => if k = 1 then (σ 10 : Int) + 2 * (σ 11 : Int) + 3 * (σ 12 : Int) + 1
+    else 5 * (σ 20 : Int) - (σ 21 : Int) + 2
+  bonds := [(11, 21)]
+  next := 100
+
+def vDim : Nat → Nat := fun _ => 2
+
+theorem vDemo_wf : vDemo.WF := by
+  refine ⟨by decide, ?_, ?_, ?_, by decide, ?_, ?_⟩
+  · intro n hn
+    simp only [vDemo, List.mem_cons, List.not_mem_nil, or_false] at hn
+    rcases hn with rfl | rfl <;> simp [vDemo]
+  · intro n hn m hm l h1 h2
+    simp only [vDemo, List.mem_cons, List.not_mem_nil, or_false] at hn hm
+    rcases hn with rfl | rfl <;> rcases hm with rfl | rfl <;> simp [vDemo] at h1 h2 <;> omega
+  · intro n hn
+    simp only [vDemo, List.mem_cons, List.not_mem_nil, or_false] at hn
+    rcases hn with rfl | rfl
+    · intro σ τ h
+      have h0 := h 10 (by simp [vDemo]); have h1 := h 11 (by simp [vDemo]); have h2 := h 12 (by simp [vDemo])
+      simp [vDemo, h0, h1, h2]
+    · intro σ τ h
+      have h0 := h 20 (by simp [vDemo]); have h1 := h 21 (by simp [vDemo])
+      simp [vDemo, h0, h1]
+  · intro p hp
+    simp only [vDemo, List.mem_cons, List.not_mem_nil, or_false] at hp
+    subst hp
+    exact ⟨⟨1, by simp [vDemo], by simp [vDemo]⟩, ⟨2, by simp [vDemo], by simp [vDemo]⟩⟩
+  · intro n hn l hl
+    simp only [vDemo, List.mem_cons, List.not_mem_nil, or_false] at hn
+    rcases hn with rfl | rfl <;> simp [vDemo] at hl ⊢ <;> omega
+
+/-- `contract_nodes(2, 1, new_identifier=3)` is admissible on the demo network -/
+theorem vDemo_contract : ContractAdm vDemo 2 1 3 (11, 21) 21 11 :=
+  ⟨by simp [vDemo], by simp [vDemo], by decide, ⟨by simp [vDemo], Or.inr rfl, by simp [vDemo], by simp [vDemo]⟩,
+    Or.inr (Or.inr (by simp [vDemo]))⟩
+
+/-- the contracted network -/
+def vDemo1 : VNet Int := contractStep vDim vDemo 2 1 3 (11, 21) 21 11
+
+/-- splitting the contracted node back (out: the open leg of the old node 2, in: the two open legs of node 1) with
+the exact factorisation given by the two original tensors over the fresh bond `(100, 101)` -/
+def vDemoFact : SplitFact vDim (vDemo1.tens 3) [20] [10, 12] vDemo1.next (vDemo1.next + 1) where
+  O := fun ρ => 5 * (ρ 20 : Int) - (ρ 100 : Int) + 2
+  I := fun ρ => (ρ 10 : Int) + 2 * (ρ 101 : Int) + 3 * (ρ 12 : Int) + 1
+  exact := by
+    intro τ
+    simp [vDemo1, contractStep, vDemo, vDim, sumPairs, sumR, upd, List.range_succ]
+    try ring
+  readsO := by
+    intro σ τ h
+    have h0 := h 20 (by simp); have h1 := h 100 (by simp [vDemo1, contractStep, vDemo])
+    simp [h0, h1]
+  readsI := by
+    intro σ τ h
+    have h0 := h 10 (by simp); have h1 := h 101 (by simp [vDemo1, contractStep, vDemo]); have h2 := h 12 (by simp)
+    simp [h0, h1, h2]
+
+theorem vDemo_split : SplitAdmV vDemo1 3 3 4 [20] [10, 12] :=
+  ⟨by simp [vDemo1, contractStep], by decide, Or.inl rfl, Or.inr (by simp [vDemo1, contractStep, vDemo]),
+    by simp [vDemo1, contractStep, vDemo]⟩
+
+/-- the premises of `ops_preserve_value` are satisfiable by a history with a contraction, a split with an exact
+factorisation and a tensor replacement with a permutation -/
+example : vDemo.WF ∧ ∃ N', VRun vDim vDemo N' :=
+  ⟨vDemo_wf, _, VRun.cons (VStep.contract vDemo_contract)
+    (VRun.cons (VStep.split vDemo_split vDemoFact)
+      (VRun.cons (VStep.perm (id := 4) (legs' := [12, 101, 10]) (by
+        simp [splitStep, vDemo1, contractStep, vDemo]
+        decide)) (VRun.nil _)))⟩
+
+/-- `insert_identity` on the bond of the demo network: the premises of `insert_identity_value` hold -/
+example : (11, 21) ∈ vDemo.bonds ∧ 7 ∉ vDemo.ids ∧ vDim (vDemo.next + 1) = vDim (11, 21).1 :=
+  ⟨by simp [vDemo], by simp [vDemo], rfl⟩
+
+end ValueDemo
 
 end Ptn.C02
